@@ -91,6 +91,12 @@ func GenTime(t time.Time) []byte {
 	return TLV(TagGenTime, []byte(t.UTC().Format("20060102150405Z")))
 }
 
+// GenTimeZone encodes the same instant as local time with a numeric zone offset of min minutes
+// (a form of GeneralizedTime that ASN.1 allows, DER and RFC 4120 do not, and lenient decoders accept).
+func GenTimeZone(t time.Time, min int) []byte {
+	return TLV(TagGenTime, []byte(t.In(time.FixedZone("", min*60)).Format("20060102150405-0700")))
+}
+
 // Flags32 encodes KerberosFlags: a 32-bit BIT STRING, bit 0 is the most significant bit.
 func Flags32(f uint32) []byte {
 	return TLV(TagBitString, []byte{0, byte(f >> 24), byte(f >> 16), byte(f >> 8), byte(f)})
